@@ -71,7 +71,27 @@ type aopts struct {
 	indent                  string
 }
 
+// One *ApplyOptions per distinct setting, REUSED across all calls of the run (as a caller holding an
+// options value would): Apply must not keep per-call state in it, whether the earlier calls
+// succeeded or failed.
+type optKey struct {
+	neg, allow, ensure, esc bool
+	limit                   int64
+}
+
+var sharedOpts = map[optKey]*jsonpatch.ApplyOptions{}
+
 func (a aopts) mk() *jsonpatch.ApplyOptions {
+	k := optKey{a.neg, a.allow, a.ensure, a.esc, a.limit}
+	if o, ok := sharedOpts[k]; ok {
+		return o
+	}
+	o := a.mkFresh()
+	sharedOpts[k] = o
+	return o
+}
+
+func (a aopts) mkFresh() *jsonpatch.ApplyOptions {
 	o := jsonpatch.NewApplyOptions()
 	o.SupportNegativeIndices = a.neg
 	o.AllowMissingPathOnRemove = a.allow
@@ -619,6 +639,8 @@ var validOps = []string{
 	`{"op":"move","from":"/a","path":"/b"}`, `{"op":"copy","from":"/a","path":"/b"}`, `{"op":"test","path":"/a","value":{"x":[1]}}`,
 	`{"op":"test","path":""}`, `{"op":"add","path":"","value":{"q":1},"extra":true}`,
 }
+var hostileStrings = []string{"\"/a\xff\"", "\"/\xc3\"", "\"/a\xe2\x80\"", "\"/\xed\xa0\x80\"", "\"/a\\/b\"", "\"/\\ud83d\\ude00\"", "\"/\\ud83d\"",
+	"\"/\u00e9\"", "\"/\\u00e9~1\"", "\"/a\x80b/c\"", "\"\xff\"", "\"/\\u0000\"", "\"/\\t\"", "\"/~0\xfe~1\""}
 var jsonTypes = []string{`null`, `true`, `1`, `"s"`, `"add"`, `"/a"`, `[]`, `{}`, `["add"]`, `{"op":"add"}`, `""`, `"ADD"`, `"Add"`, `"\u0061dd"`}
 
 func decodeCase(b []byte) {
@@ -687,6 +709,12 @@ func decodeStream(n int, exhaustive bool) {
 				stdjson.Unmarshal([]byte(op), &m)
 				name := pick("op", "path", "from", "value", "x")
 				op = rebuild(m, name, pickOr(jsonTypes, ""), "", "")
+			} else if chance(0.4) {
+				// awkward spellings of the string members: escapes, surrogate pairs, raw bytes that are
+				// not valid UTF-8 (decoded as U+FFFD)
+				var m map[string]stdjson.RawMessage
+				stdjson.Unmarshal([]byte(op), &m)
+				op = rebuild(m, pick("path", "from", "path"), hostileStrings[rng.Intn(len(hostileStrings))], "", "")
 			}
 			ops = append(ops, op)
 		}
@@ -1135,10 +1163,14 @@ type pool struct {
 	docs    [][]byte
 	patches []jsonpatch.Patch
 	ptexts  [][]byte
+	optset  []aopts
 }
 
 func mkPool() *pool {
 	p := &pool{}
+	for i := 0; i < 3; i++ {
+		p.optset = append(p.optset, aopts{neg: chance(0.7), esc: chance(0.5), allow: chance(0.2), limit: pick64(0, 0, 5, 12, 30, 60)})
+	}
 	for i := 0; i < 6; i++ {
 		g := genOpts{depth: 1 + rng.Intn(3), ws: chance(0.3), scalarRoot: chance(0.2)}
 		d := []byte(genDoc(g))
@@ -1177,7 +1209,9 @@ func (p *pool) genCall() call {
 	switch rng.Intn(7) {
 	case 0, 1, 2:
 		i := rng.Intn(len(p.patches))
-		return call{kind: "apply", a: d(), patch: p.patches[i], pidx: i, opt: aopts{neg: chance(0.7), esc: chance(0.5), allow: chance(0.2), indent: pick("", "", " ")}}
+		o := p.optset[rng.Intn(len(p.optset))] // a few settings per history, so that calls share an options value
+		o.indent = pick("", "", " ")
+		return call{kind: "apply", a: d(), patch: p.patches[i], pidx: i, opt: o}
 	case 3:
 		return call{kind: "equal", a: d(), b: d()}
 	case 4:
@@ -1198,7 +1232,7 @@ func (p *pool) genCall() call {
 func (c call) describe(p *pool) []kv {
 	f := []kv{{"call", c.kind}, {"a", hx(c.a)}, {"b", hx(c.b)}}
 	if c.kind == "apply" {
-		f = append(f, kv{"patch", hx(p.ptexts[c.pidx])}, kv{"flags", b2s(c.opt.neg) + b2s(c.opt.allow) + b2s(c.opt.ensure) + b2s(c.opt.esc)}, kv{"indent", hx([]byte(c.opt.indent))})
+		f = append(f, kv{"patch", hx(p.ptexts[c.pidx])}, kv{"flags", b2s(c.opt.neg) + b2s(c.opt.allow) + b2s(c.opt.ensure) + b2s(c.opt.esc)}, kv{"limit", fmt.Sprint(c.opt.limit)}, kv{"indent", hx([]byte(c.opt.indent))})
 	}
 	return f
 }
